@@ -143,7 +143,7 @@ def summary(shx):
             'resi': sorted((k, tuple(v)) for k, v in shx.residues.residue_classes.items()), 'errors': list(shx.restraint_errors),
             'hklf': str(shx.hklf), 'end': shx.end, 'nlines': len(shx._reslist), 'frag': str(shx.frag), 'afix': str(getattr(shx, 'afix', None)),
             'part': str(getattr(shx, 'part', None)), 'resi_now': str(getattr(shx, 'resi', None)), 'R1': shx.R1, 'wr2': shx.wr2, 'goof': shx.goof,
-            'temp': shx.temp_in_kelvin, 'wavelen': shx.wavelength}
+            'temp': shx.temp_in_kelvin, 'wavelen': shx.wavelength, 'file': str(shx.resfile) if getattr(shx, 'resfile', None) else None}
 
 
 duplicate_file = ec.duplicate_file
@@ -155,15 +155,19 @@ def run(ctx):
     nh = 12000 if ctx.thorough() else 120
     ev = 0
     id_cases = []
+    on_disk = None
     for k in range(nh):
         text = duplicate_file(rng) if k % 5 == 4 else c04.make_file(rng, 'wild' if k % 4 == 3 else 'plain')
+        if on_disk is not None:
+            __import__('shutil').rmtree(on_disk[0], ignore_errors=True)      # left behind by an iteration that ended early
+        on_disk = None
         if k % 6 == 1:
             # a file that pulls in an include file (its lines are in the line list, marked as not to be written)
             import tempfile as _tf2
             inc_dir = _tf2.mkdtemp(prefix='verif-c08i-')
             main, text = c04.with_include(c04.make_file(rng, 'plain'), rng, inc_dir)
             st, inn, shx = im.read_text(None, 'quiet', path=main)
-            __import__('shutil').rmtree(inc_dir, ignore_errors=True)
+            on_disk = (inc_dir, main)
         else:
             st, inn, shx = im.read_text(text, 'quiet')
         if st != 'ok' or inn:
@@ -208,6 +212,22 @@ def run(ctx):
             ids.append(ident.setdefault(key, len(ident)))
         look = [(ident[id(x)], x.index) for x in reachable(shx) if id(x) in ident]
         id_cases.append((ids, look))
+        # reload() reads the (untouched) file again: everything done to the object in memory is gone
+        if on_disk is not None:
+            try:
+                if rng.random() < 0.7:
+                    st0, in0, fresh0 = im.read_text(None, 'quiet', path=on_disk[1])
+                    with __import__('contextlib').redirect_stdout(__import__('io').StringIO()):
+                        shx.reload()
+                    ev += 1
+                    a0, b0 = summary(fresh0), summary(shx)
+                    if a0 != b0:
+                        diff = [key for key in a0 if a0[key] != b0[key]]
+                        common.add_violation(ctx, 'reload() of the unchanged file on an edited object gives a different model than reading the file with a fresh object',
+                                             {'text': text, 'history': h.log}, 'identical',
+                                             {'differs_in': diff, 'fresh': str([a0[d] for d in diff])[:200], 'reloaded': str([b0[d] for d in diff])[:200]})
+            finally:
+                __import__('shutil').rmtree(on_disk[0], ignore_errors=True)
         # re-reading resets all state
         other = c04.make_file(rng, 'plain')
         st1, in1, fresh = im.read_text(other, 'quiet')
